@@ -632,3 +632,9 @@ def statics_from_params(fn):
             if v.get("static") and isinstance(v.get("init"), dict) and any(x.get("k") == "ref" and x.get("decl") in pd for x in walk(v["init"])):
                 out.append((d, v))
     return out
+
+
+def in_lib(path):
+    """a file of the library under analysis: a source file of src/qtlogger, or the amalgamated single header (header-only configuration)"""
+    path = path or ""
+    return "/src/qtlogger/" in path or path.endswith("/qtlogger.h")
